@@ -445,7 +445,7 @@ pub fn ms_e(level: usize) -> ListSpace {
     }
     let c = ms_c();
     for (i, (l, _)) in c.files.iter().enumerate() {
-        if thorough || (level == 1 && i % 5 == 0) || i % 20 == 0 {
+        if thorough || (level == 1 && i % 10 == 0) || i % 20 == 0 {
             bases.push(l.clone());
         }
     }
@@ -458,9 +458,12 @@ pub fn ms_e(level: usize) -> ListSpace {
                 files.push((b.clone(), t));
             }
         }
-        // one noise line at every position
+        // one noise line at every position (bases of 3 lines: the three most different noise kinds unless thorough)
         for pos in 0..=b.len() {
-            for nz in &noise {
+            for (ni, nz) in noise.iter().enumerate() {
+                if !thorough && b.len() >= 3 && ![0usize, 1, 7].contains(&ni) {
+                    continue;
+                }
                 let mut f = b.clone();
                 f.insert(pos, Line::Noise(nz));
                 files.push((f.clone(), Term::Lf));
@@ -716,6 +719,11 @@ fn oracle_c01<'u>(model: &'u Model, uni: &'u Universe, subjects: &[&'u dyn Subj;
         for method in uni.all_methods() {
             for &line in &uni.lines {
                 for file in files {
+                    // the frame's own file only matters for entries without sourceFile / foreign class: it is
+                    // issued for every small line, the extreme lines are issued without a file
+                    if file.is_some() && line > 200 {
+                        continue;
+                    }
                     c01_one(model, subjects, class, method, line, file, &mut mout, &mut sout, acc, size, case);
                 }
             }
